@@ -172,6 +172,68 @@ class Impl:
         stmts = [canon_stmt(l) for l in text.split("\n")[:-1]] if text else []
         return line, f"out={out} stmts={';'.join(stmts) if stmts else '-'} {self.state_record()}"
 
+    # ---- tracer operations: executed on the real tracer, observed as the sequence of `move` calls it makes
+    def apply_trace(self, line: str):
+        """`trace <shape> args…` -> list of (move line, record), one per `g.move` call the tracer issued.
+        The model sees the same moves (exact rationals of the floats the tracer passed)."""
+        g = self.g
+        ws = line.split()
+        shape, args = ws[1], ws[2:]
+        calls = []
+        orig = type(g).move
+
+        def wrapped(point=None, **kw):
+            n0 = len(self.rec.chunks)
+            out = "ok"
+            pt = tuple(point) if point is not None else (kw.pop("x", None), kw.pop("y", None), kw.pop("z", None))
+            ln = "move " + " ".join(f"{a}={'-' if v is None else _val(v)}" for a, v in zip("xyz", pt))
+            for k, v in kw.items():
+                if k != "comment":
+                    ln += f" {k.upper()}:{_val(v)}"
+                    self.letters.add(k.upper())
+            ln = self._with_h(ln, {a: float(v) for a, v in zip("xyz", pt) if v is not None}, False)
+            try:
+                orig(g, point, **kw) if point is not None else orig(g, **dict(zip("xyz", pt)), **kw)
+            except Exception as e:  # noqa
+                out = type(e).__name__
+                raise
+            finally:
+                text = b"".join(self.rec.chunks[n0:]).decode("utf-8")
+                stmts = [canon_stmt(l) for l in text.split("\n")[:-1]] if text else []
+                calls.append((ln, f"out={out} stmts={';'.join(stmts) if stmts else '-'} {self.state_record()}"))
+
+        g.move = wrapped
+        err = None
+        try:
+            f = [float(Fraction(a)) for a in args if a[0] in "-0123456789"]
+            kw = {}
+            if shape == "polyline":
+                pts = [tuple(float(Fraction(c)) for c in p.split(";")) for p in args]
+                g.trace.polyline(pts)
+            elif shape == "arc":
+                g.trace.arc(tuple(f[:3]) if len(f) == 5 else tuple(f[:2]), tuple(f[-2:]))
+            elif shape == "arc_radius":
+                g.trace.arc_radius(tuple(f[:-1]), f[-1])
+            elif shape == "circle":
+                g.trace.circle(tuple(f[:2]))
+            elif shape == "helix":
+                g.trace.helix(tuple(f[:3]), tuple(f[3:5]), int(f[5]))
+            elif shape == "thread":
+                g.trace.thread(tuple(f[:3]), f[3])
+            elif shape == "spiral":
+                g.trace.spiral(tuple(f[:3]), int(f[3]))
+            elif shape == "spline":
+                pts = [tuple(float(Fraction(c)) for c in p.split(";")) for p in args]
+                g.trace.spline(pts)
+            else:
+                raise RuntimeError("harness: unknown shape " + shape)
+        except Exception as e:  # noqa
+            err = type(e).__name__
+        finally:
+            del g.move
+        self.last_trace_error = err
+        return calls
+
     def _move_args(self, args):
         kw, pt = {}, {}
         for a in args:
@@ -357,6 +419,15 @@ class Impl:
             f"ms={b(s.time_units.value == 'milliseconds')} kelvin={b(s.temperature_units.value == 'kelvin')} "
             f"params={','.join(ps) if ps else '-'} nhook={len(self.hook_log)} lasthook={last}"
         )
+
+
+def _val(v) -> str:
+    v = float(v)
+    if math.isnan(v):
+        return "nan"
+    if math.isinf(v):
+        return "inf" if v > 0 else "-inf"
+    return show(Fraction(v))
 
 
 def _num(q: Fraction):
